@@ -189,7 +189,7 @@ func c20Scenario(c *Ctx, name string, oneZone bool, T int, payloadLen int, prolo
 func init() {
 	Register("C20", func(c *Ctx) {
 		c.Out.Rule = "race-detector-instrumented build explored by the controlled scheduler (hand-offs invisible to the detector): every bounded schedule of {fetcher, waiter, late request + expiry}, {hits with different Accept-Encoding / conditional headers}, {hit, purge, refetch}, {requests during a reload of compress/cache/location/server registries}; oracle: zero race reports with a pike frame, every response decodes to the origin's body for its own key, published cache responses unchanged (deep hash), no panic/deadlock"
-		c.Out.Assume = []string{"amd64 TSO for the scheduler's own plain-variable hand-off; Go race detector (happens-before, sees only pike's own synchronisation); upstream registry excluded from the in-schedule reload"}
+		c.Out.Assume = []string{"amd64 TSO for the scheduler's own plain-variable hand-off; Go race detector (happens-before, sees only pike's own synchronisation); upstream registry excluded from the in-schedule reload of the scripted-origin scenarios and covered by full-update-vs-requests over a real loopback origin"}
 		// happens-before race detection needs both accesses in one execution, not adjacency, so a low
 		// preemption bound already exposes unsynchronised pairs; the functional oracles profit from more
 		pre := 1
@@ -229,5 +229,9 @@ func init() {
 			{Reload: true},
 			{Reqs: []env.Req{{URI: "/k2", Header: ae("br")}}},
 		}, nil, vsched.Bounds{Preempt: pre, Tick: 0, Data: -1, Total: -1}))
+		// the whole of main.update() — including the upstream registry, which the scenarios above leave out because the
+		// scripted origin lives there — racing two requests, over a real loopback origin (the scenario of C16, here in the race build)
+		c.RunSched(c16Conc(c, "full-update-vs-requests", vsched.Bounds{Preempt: pre, Tick: 0, Data: -1, Total: -1}))
+		procEnv = nil
 	})
 }
